@@ -130,6 +130,40 @@ theorem truncate_eq_dynTrunc (hm : List Nat) (hlen : 20 ≤ hm.length) (modulus 
     ne_eq, not_true_eq_false, if_false, u32OfBytes, otpBigEndian, beNum4, finalise, hmask,
     Rfc.dynTrunc]
 
+/-! ### RFC 4226 §5.4 reference expression -/
+
+theorem ref_expr (b0 b1 b2 b3 : Nat) (h1 : b1 < 256) (h2 : b2 < 256) (h3 : b3 < 256) :
+    (b0 * 2 ^ 24 + b1 * 2 ^ 16 + b2 * 2 ^ 8 + b3) % 2 ^ 31 =
+    ((b0 &&& 0x7f) <<< 24) ||| ((b1 &&& 0xff) <<< 16) ||| ((b2 &&& 0xff) <<< 8) ||| (b3 &&& 0xff) := by
+  have e0 : b0 &&& 0x7f = b0 % 128 := Nat.and_two_pow_sub_one_eq_mod b0 7
+  have e1 : b1 &&& 0xff = b1 := by rw [show (0xff:Nat) = 2^8 - 1 from rfl, Nat.and_two_pow_sub_one_eq_mod]; omega
+  have e2 : b2 &&& 0xff = b2 := by rw [show (0xff:Nat) = 2^8 - 1 from rfl, Nat.and_two_pow_sub_one_eq_mod]; omega
+  have e3 : b3 &&& 0xff = b3 := by rw [show (0xff:Nat) = 2^8 - 1 from rfl, Nat.and_two_pow_sub_one_eq_mod]; omega
+  rw [e0, e1, e2, e3]
+  have s1 : (b0 % 128) <<< 24 ||| b1 <<< 16 = ((b0 % 128) <<< 8 + b1) <<< 16 := by
+    rw [Nat.shiftLeft_add_eq_or_of_lt (by omega : b1 < 2 ^ 8), Nat.shiftLeft_or_distrib, ← Nat.shiftLeft_add]
+  have s2 : ((b0 % 128) <<< 8 + b1) <<< 16 ||| b2 <<< 8 = (((b0 % 128) <<< 8 + b1) <<< 8 + b2) <<< 8 := by
+    rw [Nat.shiftLeft_add_eq_or_of_lt (by omega : b2 < 2 ^ 8), Nat.shiftLeft_or_distrib, ← Nat.shiftLeft_add]
+  rw [s1, s2, ← Nat.shiftLeft_add_eq_or_of_lt (by omega : b3 < 2 ^ 8)]
+  simp only [Nat.shiftLeft_eq]
+  omega
+
+theorem getD_lt (hs : List Nat) (hlt : ∀ b ∈ hs, b < 256) (i : Nat) : hs.getD i 0 < 256 := by
+  induction hs generalizing i with
+  | nil => simp
+  | cons x xs ih =>
+    cases i with
+    | zero => simpa using hlt x (by simp)
+    | succ n => simpa using ih (fun b hb => hlt b (by simp [hb])) n
+
+theorem dynTrunc_eq_refTrunc (hs : List Nat) (hlt : ∀ b ∈ hs, b < 256) :
+    Rfc.dynTrunc hs = Rfc.refTrunc hs := by
+  have ho : hs.getD (hs.length - 1) 0 &&& 0xf = hs.getD (hs.length - 1) 0 % 16 :=
+    Nat.and_two_pow_sub_one_eq_mod _ 4
+  unfold Rfc.dynTrunc Rfc.refTrunc
+  simp only [ho]
+  exact ref_expr _ _ _ _ (getD_lt hs hlt _) (getD_lt hs hlt _) (getD_lt hs hlt _)
+
 /-- `verify` when both digests return codes (stated over opaque codes: the tactics below never
 see a hash). -/
 theorem verify_of_digests (t : Totp) (chal secs c1 c2 : Nat) (hstep : t.step ≠ 0)
